@@ -164,6 +164,24 @@ Fixpoint map_opt {A B} (f : A -> option B) (l : list A) : option (list B) :=
       end
   end.
 
+(* sequencing of two partial expressions inside a comprehension element *)
+Definition obind {A B} (o : option A) (k : A -> option B) : option B :=
+  match o with Some a => k a | None => None end.
+
+(* sum(xs): starts from the int 0 and adds left to right *)
+Definition py_sum {V} (O : NumOps V) (l : list V) : V := fold_left (n_add O) l (n_lit O 0%Q).
+
+(* min(xs) / max(xs) on a list: ValueError on the empty list; keeps the earlier element unless a later one is
+   strictly smaller / larger *)
+Definition py_list_min {V} (O : NumOps V) (l : list V) : option V :=
+  match l with [] => None | x :: r => Some (fold_left (py_min O) r x) end.
+Definition py_list_max {V} (O : NumOps V) (l : list V) : option V :=
+  match l with [] => None | x :: r => Some (fold_left (py_max O) r x) end.
+
+(* xs[:k] for an int k: a negative k counts from the end *)
+Definition py_upto_z {A} (k : Z) (l : list A) : list A :=
+  firstn (Z.to_nat (if k <? 0 then Z.max 0 (k + Z.of_nat (length l)) else k)) l.
+
 (* itertools.compress(data, selectors): stops at the shorter one *)
 Fixpoint py_compress {A} (data : list A) (sel : list bool) : list A :=
   match data, sel with
@@ -259,3 +277,33 @@ Proof.
   rewrite app_length. cbn [length]. replace (length (removelast l) + 1 - 1)%nat with (length (removelast l)) by lia.
   rewrite nth_error_app2 by lia. now rewrite Nat.sub_diag.
 Qed.
+
+Lemma py_upto_z_nat {A} (k : nat) (l : list A) : py_upto_z (Z.of_nat k) l = firstn k l.
+Proof.
+  unfold py_upto_z. assert (E : (Z.of_nat k <? 0) = false) by (apply Z.ltb_ge; lia). rewrite E. now rewrite Nat2Z.id.
+Qed.
+
+Lemma map_opt_map {A B C} (f : B -> option C) (g : A -> B) (l : list A) :
+  map_opt f (map g l) = map_opt (fun a => f (g a)) l.
+Proof. induction l as [|a l IH]; cbn [map map_opt]; [reflexivity|]. destruct (f (g a)); [|reflexivity]. now rewrite IH. Qed.
+
+Lemma map_opt_ext_in {A B} (f g : A -> option B) (l : list A) :
+  (forall x, In x l -> f x = g x) -> map_opt f l = map_opt g l.
+Proof.
+  induction l as [|a l IH]; intro H; cbn [map_opt]; [reflexivity|].
+  rewrite (H a (or_introl eq_refl)). destruct (g a); [|reflexivity].
+  rewrite IH; [reflexivity|]. intros x Hx. apply H. now right.
+Qed.
+
+Lemma while_fuel_ext {S R} (c1 c2 : S -> bool) (b1 b2 : S -> ctl S R) :
+  (forall s, c1 s = c2 s) -> (forall s, b1 s = b2 s) ->
+  forall fuel s, while_fuel fuel c1 b1 s = while_fuel fuel c2 b2 s.
+Proof.
+  intros Hc Hb. induction fuel as [|f IH]; intro s; cbn [while_fuel]; rewrite Hc; [reflexivity|].
+  rewrite Hb. destruct (c2 s); [|reflexivity]. destruct (b2 s); auto.
+Qed.
+
+(* "for e in es: obj = h(e, obj)" is a left fold *)
+Lemma for_list_hook {E S R} (h : E -> S -> S) (l : list E) (s : S) :
+  for_list (fun e w => @Next S R (h e w)) l s = Next (fold_left (fun w e => h e w) l s).
+Proof. exact (for_list_total (fun w e => h e w) l s). Qed.
